@@ -19,7 +19,7 @@ import (
 
 // runnerOp is one operation of a history.
 type runnerOp struct {
-	Op  string  `json:"op"`            // setthis | setvalue | resolve | set | get
+	Op  string  `json:"op"`            // setthis | setvalue | resolve | set | get | write
 	Map string  `json:"map,omitempty"` // setthis: "A", "B" or "" (nil)
 	Key string  `json:"key,omitempty"`
 	Val int64   `json:"val,omitempty"`
@@ -52,6 +52,8 @@ func (o runnerOp) String() string {
 		return fmt.Sprintf("SetThisValue(%q,%s)", o.Key, o.valText())
 	case "resolve":
 		return "Resolve(" + o.F + ")"
+	case "write":
+		return fmt.Sprintf("callerMap[%q]=%s", o.Key, o.valText())
 	case "set":
 		return fmt.Sprintf("Set(%q,%s)", o.Key, o.valText())
 	case "get":
@@ -109,6 +111,12 @@ func checkHistory(hh history) (msg string, unspec bool) {
 				model[cur] = map[string]mv{}
 			}
 			model[cur][op.Key] = mvv
+		case "write": // the caller writes into the map it handed to SetThis: it is the caller's map, and the runner's data
+			if _, own := real[cur]; own {
+				gv, mvv := op.value()
+				real[cur][op.Key] = gv
+				model[cur][op.Key] = mvv
+			}
 		case "set":
 			gv, mvv := op.value()
 			r.Set(op.Key, gv)
@@ -203,6 +211,7 @@ var c20Alphabet = []runnerOp{
 	{Op: "setthis", Map: "A"}, {Op: "setthis", Map: "B"}, {Op: "setthis", Map: ""}, {Op: "setthis", Map: "E"},
 	{Op: "setvalue", Key: "x", Val: 50}, {Op: "setvalue", Key: "$a", Val: 60},
 	{Op: "resolve", F: "$a = x + 1, this.$a"}, {Op: "resolve", F: "[x, $a, k]"}, {Op: "resolve", F: "$a = 5"}, {Op: "resolve", F: "this.x"}, {Op: "resolve", F: "[$a + 1, $a]"},
+	{Op: "write", Key: "x", Val: 70},
 	{Op: "set", Key: "x", Val: 99}, {Op: "get", Key: "x"}, {Op: "get", Key: "$a"}, {Op: "set", Key: "$a", Val: 98},
 }
 
@@ -256,7 +265,7 @@ func historyNontrivial(hh history) bool {
 // TestC20Exhaustive: all sequences of up to k actions over the alphabet.
 func TestC20Exhaustive(t *testing.T) {
 	k := h.N(4, 6)
-	run := h.Begin("C20", "exhaustive", fmt.Sprintf("bounded-exhaustive: every history of 1..%d operations over a %d-operation alphabet {SetThis(A|B|an empty map|nil), SetThisValue(x|$a), Resolve of 4 pool formulas that read and assign locals and fields, Set(x|$a), Get(x|$a)} on one runner, with keys shared between the two caller maps and the auxiliary store; oracle: a model with 'this' as a reference to caller map A, B, a runner-created map or nothing, and a separate auxiliary map - every Resolve result and every Get must match, and the caller maps must equal the model's after every step; non-trivial: a local surviving to a later evaluation, a map replacement that hides or restores a local, SetThisValue on a map-less runner, or a key present in both stores", k, len(c20Alphabet)))
+	run := h.Begin("C20", "exhaustive", fmt.Sprintf("bounded-exhaustive: every history of 1..%d operations over a %d-operation alphabet {SetThis(A|B|an empty map|nil), SetThisValue(x|$a), Resolve of 4 pool formulas that read and assign locals and fields, Set(x|$a), Get(x|$a), the caller writing x into the map it handed over} on one runner, with keys shared between the two caller maps and the auxiliary store; oracle: a model with 'this' as a reference to caller map A, B, a runner-created map or nothing, and a separate auxiliary map - every Resolve result and every Get must match, and the caller maps must equal the model's after every step; non-trivial: a local surviving to a later evaluation, a map replacement that hides or restores a local, SetThisValue on a map-less runner, or a key present in both stores", k, len(c20Alphabet)))
 	defer run.End(t)
 	enumSeq(len(c20Alphabet), k, func(seq []int) {
 		if run.NViolations() >= 3 {
@@ -302,7 +311,9 @@ func TestC20Random(t *testing.T) {
 				txt, _ := genLookalike(rt) // a string that looks like a timestamp, a number, a keyword ...
 				sval = &txt
 			}
-			switch rapid.IntRange(0, 7).Draw(rt, "op") {
+			switch rapid.IntRange(0, 8).Draw(rt, "op") {
+			case 8:
+				hh.Ops = append(hh.Ops, runnerOp{Op: "write", Key: key, Val: val, Str: sval})
 			case 0:
 				hh.Ops = append(hh.Ops, runnerOp{Op: "setthis", Map: rapid.SampledFrom([]string{"A", "B", "", "E", "E"}).Draw(rt, "map")})
 			case 1:
